@@ -42,6 +42,8 @@ class Class:
         self.bases = [ast.unparse(b) for b in node.bases]
         self.class_assigns: dict[str, ast.AST] = {}
         self.inner: dict[str, Class] = {}
+        self.prop_get: dict[str, Func] = {}      # @property / @cached_property getters
+        self.prop_set: dict[str, Func] = {}      # @<name>.setter
 
     @property
     def fq(self):
@@ -111,7 +113,16 @@ class Program:
             for st in node.body:
                 if isinstance(st, (ast.FunctionDef, ast.AsyncFunctionDef)):
                     f = Func(m, f"{c.qualname}.{st.name}", st, cls=c)
-                    c.methods[st.name] = f
+                    decs = [ast.unparse(d) for d in st.decorator_list]
+                    if any(d.split(".")[-1] in ("property", "cached_property") for d in decs):
+                        c.prop_get[st.name] = f
+                    if any(d == st.name + ".setter" for d in decs):
+                        c.prop_set[st.name] = f
+                        f.qualname = f"{c.qualname}.{st.name}.setter"
+                    elif any(d in (st.name + ".getter", st.name + ".deleter") for d in decs):
+                        pass
+                    else:
+                        c.methods[st.name] = f
                     m.all_funcs.append(f)
                     index_nested(st, f.qualname)
                 elif isinstance(st, ast.ClassDef):
@@ -265,6 +276,20 @@ class Program:
                 if c.qualname == qn:
                     return c
         raise AnalysisError(f"anchor class {fq} not found in the tree")
+
+    def find_property(self, c: Class, name: str, setter=False, depth=0):
+        tab = c.prop_set if setter else c.prop_get
+        if name in tab:
+            return tab[name]
+        if depth > 5:
+            return None
+        for b in c.bases:
+            r = self.lookup_global(c.module, b.split(".")[0])
+            if r and r[0] == "class":
+                f = self.find_property(r[1], name, setter, depth + 1)
+                if f:
+                    return f
+        return None
 
     def find_method(self, c: Class, name: str, depth=0):
         if name in c.methods:
